@@ -7,7 +7,7 @@ def main(tier):
     c = sup.Check('C08', tier, 'exploration')
     quick = tier == 'quick'
     env = {'C08_TIER': tier}
-    c.set_deadline(600 if quick else 2400)
+    c.set_deadline(900 if quick else 3000)
     c.build('plain', ['c08'])
     c.build('asan', ['c08'])
     info = json.loads(subprocess.run([sup.binpath('plain', 'c08'), 'poolinfo'], capture_output=True, text=True, env=dict(os.environ, **env), check=True).stdout)
@@ -43,5 +43,5 @@ def main(tier):
             'validator family: members with imports are resolved and flattened first (the validator does not follow imports); a flattened model whose units no longer reduce as the imports described is counted, not judged (flattening is C06); hint numbers are compared with tolerance 2e-6 (the message prints six decimals)',
             'the validator hint expresses the mismatch as units(v1)/units(v2) like the base-unit exponents next to it, i.e. k = log10 scalingFactor(units2, units1, false)',
             'generator family: c1{v1 [a] = 1} ~ c2{v2 [b]; y = v2}; the generated C (implementationCode) is executed by a small evaluator (numbers, variables[i], *, /) and y must equal SI(a)/SI(b) (rel 1e-9) inside the SI-ratio domain, Units::scalingFactor(b, a) outside it',
-            'quick tier: two-children menu 4 references x 6 attribute triples, 8 inner definitions; thorough: 6 x 16, 14 inner definitions',
+            'quick tier: two-children menu 4 references x 6 attribute triples, 8 inner definitions; thorough: 5 x 16, 14 inner definitions',
         ])
